@@ -22,6 +22,16 @@ Definition chk_chg_body (data : bytes) (deps : list bytes) (actor : bytes) (seq 
   | _ => false
   end.
 
+(* a change written by the implementation itself: additionally its column specifications are among
+   those the writer is known to emit, in that order (a new or reordered op column shows up here) *)
+Definition chk_chg_written (data : bytes) (deps : list bytes) (actor : bytes) (seq start : N) (time : Z)
+    (msg : bytes) (others : list bytes) (extra : bytes) : bool :=
+  chk_chg_body data deps actor seq start time msg others extra
+  && match parse_body data with
+     | Ok c => writer_specs_ok (map fst (cb_cols c))
+     | _ => false
+     end.
+
 (* mutated chunk data.  st = what Change::from_bytes did:
      0 accepted (fields follow), 2 rejected by the container parser (recognised as such),
      4 rejected, layer not recognised (may be the op columns, which the model does not read),
